@@ -92,6 +92,10 @@ func c17Cases(tier string, seed uint64) []fw.Case {
 		cc := c17Case{Kind: "objects", Procs: []int{4, 16}[i%2], Reps: reps * 2, Name: fmt.Sprintf("objects/%d", i)}
 		cs = append(cs, fw.MkCase("objects", &cc))
 	}
+	for i := 0; i < 8; i++ {
+		cc := c17Case{Kind: "conditions", Procs: []int{4, 16}[i%2], Reps: reps * 2, Name: fmt.Sprintf("conditions/%d", i)}
+		cs = append(cs, fw.MkCase("conditions", &cc))
+	}
 	return fw.Number(cs)
 }
 
@@ -304,6 +308,78 @@ func c17Objects(env *fw.Env, v *fw.V) {
 	v.Add("object-answers", 4)
 }
 
+// many tokens evaluating (distinct, never seen before) conditions at the same time
+func c17Conditions(env *fw.Env, v *fw.V, rep int, name string) {
+	g := gen.NewGraph("c17c")
+	s := g.Add(gen.Start, "start", "")
+	f := g.Add(gen.And, "fork", "")
+	g.Connect(s, f, nil)
+	vars := map[string]any{}
+	for i := 1; i <= 8; i++ {
+		t := g.Add(gen.Task, fmt.Sprintf("w%d", i), "")
+		x := g.Add(gen.Xor, fmt.Sprintf("x%d", i), "")
+		ea := g.Add(gen.End, fmt.Sprintf("ea%d", i), "")
+		eb := g.Add(gen.End, fmt.Sprintf("eb%d", i), "")
+		g.Connect(f, t, nil)
+		g.Connect(t, x, nil)
+		// a constant that differs per branch, repetition and case: every condition text is new
+		k := int64(rep*1000 + i*10 + len(name))
+		vn := fmt.Sprintf("q%d", i)
+		vars[vn] = int(k) + 1
+		lang := ""
+		if i%4 == 0 {
+			lang = "xpath"
+		}
+		g.Connect(x, ea, &gen.Cond{Kind: "var", Var: vn, Op: ">", Val: k, Lang: lang})
+		d := g.Connect(x, eb, nil)
+		x.Default = d.ID
+	}
+	defs, _, err := step.Parse(g)
+	if err != nil {
+		v.Inconclusive("parse", "%v", err)
+		return
+	}
+	perturb.Configure(0.2, 100)
+	defer perturb.Off()
+	in, err := drive.New(env.Label, defs, drive.Opts{Vars: vars})
+	if err != nil {
+		v.Violate("new-process-error", "conditions", "%v", err)
+		return
+	}
+	defer in.Cancel()
+	if err := in.Start(); err != nil {
+		v.Violate("start-error", "conditions", "%v", err)
+		return
+	}
+	in.Quiesce(step.Watchdog)
+	var wg sync.WaitGroup
+	barrier := make(chan struct{})
+	for _, r := range in.Pending() {
+		wg.Add(1)
+		go func(r *drive.Req) {
+			defer wg.Done()
+			<-barrier
+			in.Answer(r, bpmn.DoWithResults(nil))
+		}(r)
+	}
+	close(barrier)
+	wg.Wait()
+	q := in.Quiesce(step.Watchdog)
+	if !q.Quiescent {
+		v.Inconclusive("watchdog", "no quiescent point")
+		return
+	}
+	for i := 1; i <= 8; i++ {
+		if n := in.Count("CompletionEnd", fmt.Sprintf("ea%d", i)); n != 1 {
+			v.Violate("outcome-wrong-branch", "conditions", "branch %d: end event of the true condition reached %d times", i, n)
+		}
+	}
+	if n := in.Count("CeaseFlow", ""); n != 1 {
+		v.Violate("outcome-not-complete", "conditions", "%d cease-flow traces", n)
+	}
+	v.Add("condition-evaluations", 8)
+}
+
 func c17Run(c *c17Case, env *fw.Env, v *fw.V) {
 	if c.Procs > 0 {
 		defer runtime.GOMAXPROCS(runtime.GOMAXPROCS(c.Procs))
@@ -364,6 +440,8 @@ func c17Run(c *c17Case, env *fw.Env, v *fw.V) {
 			c17Locator(v)
 		case "objects":
 			fw.Rep(env, i, func(env *fw.Env) { c17Objects(env, v) })
+		case "conditions":
+			fw.Rep(env, i, func(env *fw.Env) { c17Conditions(env, v, i, c.Name) })
 		}
 		v.Add("runs", 1)
 		if v.Violated() {
